@@ -46,7 +46,8 @@ Definition dec_dsnap (c : dcase) (l : list Z) : dsnap * list Z :=
   (mkDSnap devs aset vfs, r3).
 Definition dec_dstep (c : dcase) (l : list Z) :=
   let '(a, r) := decode_many (dec_dsnap c) (Z.to_nat (d_nodes c)) l in
-  let '(b, r') := decode_many (dec_dsnap c) (Z.to_nat (d_nodes c)) r in ((a, b), r').
+  let '(b, r') := decode_many (dec_dsnap c) (Z.to_nat (d_nodes c)) r in
+  let '(p, r'') := take_n (8 * length (d_descs c)) r' in (((a, b), p), r'').
 
 Definition run_case (inp : list Z) : list Z := enc_drun (drun (decode_dcase inp)).
 Definition prop_case (inp obs : list Z) : Z :=
